@@ -1024,7 +1024,7 @@ class Exec:
             a, b = head.env.get(n), end.env.get(n)
             if a is None or b is None:
                 continue
-            if a.kind != b.kind and not ({a.kind, b.kind} <= {'val', 'none'} and a.kind == 'val'):
+            if a.kind != b.kind and not ({a.kind, b.kind} <= {'val', 'none'} and a.kind == 'val') and not ({a.kind, b.kind} <= {'list', 'lazylist'}):
                 raise OutOfSubset('loop at line %d changes the shape of %s (%s -> %s): the loop contract must give a prototype' % (
                     s.lineno, n, a.kind, b.kind))
             if a.kind == 'list' and a.f.get('ety') is not None and b.f.get('ety') is not None and a.f.get('ety') != b.f.get('ety'):
